@@ -4,6 +4,7 @@ from __future__ import annotations
 
 from decimal import Decimal
 from typing import TYPE_CHECKING
+from typing import Optional
 from typing import Collection
 
 from liquid.exceptions import LiquidSyntaxError
@@ -112,32 +113,53 @@ class BooleanExpression(Expression):
         )
 
     def __str__(self) -> str:
-        def _str(expression: Expression, parent_precedence: int) -> str:
-            if isinstance(expression, LogicalAndExpression):
-                precedence = PRECEDENCE_LOGICAL_AND
-                op = "and"
-                left = _str(expression.left, precedence)
-                right = _str(expression.right, precedence)
-            elif isinstance(expression, LogicalOrExpression):
-                precedence = PRECEDENCE_LOGICAL_OR
-                op = "or"
-                left = _str(expression.left, precedence)
-                right = _str(expression.right, precedence)
-            elif isinstance(expression, LogicalNotExpression):
-                operand_str = _str(expression.right, PRECEDENCE_PREFIX)
-                expr = f"not {operand_str}"
-                if parent_precedence > PRECEDENCE_PREFIX:
-                    return f"({expr})"
-                return expr
-            else:
+        # Parenthesize according to how `parse_boolean_primitive` groups operators.
+        # Binary operators of equal precedence group from the right, and the operand
+        # of `not` extends as far to the right as possible. For readability, `or`
+        # inside `and`, and logical operands of `not`, are always parenthesized.
+        def _group(expression: Expression) -> str:
+            return f"({_str(expression, None, left=False, last=True)})"
+
+        def _str(
+            expression: Expression,
+            parent: Optional[Expression],
+            *,
+            left: bool,
+            last: bool,
+        ) -> str:
+            if isinstance(expression, LogicalNotExpression):
+                if not last:
+                    return _group(expression)
+                if isinstance(
+                    expression.right, (LogicalAndExpression, LogicalOrExpression)
+                ):
+                    return f"not {_group(expression.right)}"
+                return f"not {_str(expression.right, None, left=False, last=True)}"
+
+            op = _OPERATORS.get(type(expression))
+            if op is None:
                 return str(expression)
 
-            expr = f"{left} {op} {right}"
-            if precedence < parent_precedence:
-                return f"({expr})"
-            return expr
+            assert isinstance(expression, _BINARY_EXPRESSIONS)
+            precedence = PRECEDENCES[op[0]]
 
-        return _str(self.expression, 0)
+            if parent is not None:
+                parent_precedence = PRECEDENCES[_OPERATORS[type(parent)][0]]
+                if (
+                    precedence < parent_precedence
+                    or (left and precedence == parent_precedence)
+                    or (
+                        isinstance(expression, LogicalOrExpression)
+                        and isinstance(parent, LogicalAndExpression)
+                    )
+                ):
+                    return _group(expression)
+
+            lhs = _str(expression.left, expression, left=True, last=False)
+            rhs = _str(expression.right, expression, left=False, last=last)
+            return f"{lhs} {op[1]} {rhs}"
+
+        return _str(self.expression, None, left=False, last=True)
 
     def evaluate(self, context: RenderContext) -> bool:
         return is_truthy(self.expression.evaluate(context))
@@ -425,6 +447,31 @@ class ContainsExpression(Expression):
 
     def children(self) -> list[Expression]:
         return [self.left, self.right]
+
+
+_OPERATORS: dict[type, tuple[str, str]] = {
+    EqExpression: (TOKEN_EQ, "=="),
+    NeExpression: (TOKEN_NE, "!="),
+    LeExpression: (TOKEN_LE, "<="),
+    GeExpression: (TOKEN_GE, ">="),
+    LtExpression: (TOKEN_LT, "<"),
+    GtExpression: (TOKEN_GT, ">"),
+    ContainsExpression: (TOKEN_CONTAINS, "contains"),
+    LogicalAndExpression: (TOKEN_AND, "and"),
+    LogicalOrExpression: (TOKEN_OR, "or"),
+}
+
+_BINARY_EXPRESSIONS = (
+    EqExpression,
+    NeExpression,
+    LeExpression,
+    GeExpression,
+    LtExpression,
+    GtExpression,
+    ContainsExpression,
+    LogicalAndExpression,
+    LogicalOrExpression,
+)
 
 
 def parse_boolean_primitive(  # noqa: PLR0912
